@@ -12,6 +12,7 @@ let () =
   opts argv;
   match argv with
   | _ :: "store" :: path :: _ -> D_store.run path
+  | _ :: "components" :: path :: _ -> D_components.run path
   | _ :: "static" :: path :: _ -> D_static.run path
   | _ :: "spec" :: path :: _ -> D_spec.run path
   | _ :: "encoders" :: path :: _ -> D_encoders.run path
